@@ -18,12 +18,28 @@ ASSUMPTIONS = ["melpow::Proof::verify returns true only for valid proofs of the 
 FN = "melstf::state::applytx::validate_and_get_doscmint_speed"
 
 
+def _role_vars(b):
+    """the two locals by role, whatever they are called: the id of the spent coin (defined from tx.inputs[0]) and its coin data (relevant_coins[that id])"""
+    cid = cd = None
+    for l, nm in sorted(b.local_name.items()):
+        ds = q.var_def_exprs(b, nm)
+        if len(ds) != 1:
+            continue
+        sg = sig(ds[0][1])
+        if cid is None and "get($3.inputs, 0)" in sg and "HashMap::get(" not in sg:
+            cid = nm
+        elif cd is None and sg.startswith(("try(HashMap::get($2, ", "HashMap::get($2, ")) or (cd is None and "HashMap::get($2, " in sg and ".inputs, 0)" in sg and sg.startswith("try(")):
+            cd = nm
+    return cid or "coin_id", cd or "coin_data"
+
+
 def _aliases(b):
     al = {}
-    cid = q.var_sig(b, "coin_id")
+    n_id, n_cd = _role_vars(b)
+    cid = q.var_sig(b, n_id)
     if cid:
         al[cid] = "COINID"
-    cd = q.var_sig(b, "coin_data")
+    cd = q.var_sig(b, n_cd)
     if cd:
         al[cd] = "COIN"
         al[abbrev(cd, {cid: "COINID"})] = "COIN"
@@ -37,8 +53,9 @@ def r1_gate_chain(ctx):
     r.anchor(oks, "Ok(speed) result")
     al = _aliases(b)
     A = lambda e: abbrev(sig(e), al)
-    r.check(al.get(q.var_sig(b, "coin_id") or "") == "COINID" and "get($3.inputs, 0)" in (q.var_sig(b, "coin_id") or ""), "coin-id", "the spent coin is inputs[0]", "coin_id = %s" % q.var_sig(b, "coin_id"))
-    r.check((q.var_sig(b, "coin_data") or "").startswith("try(HashMap::get($2, "), "coin-lookup", "coin data comes from relevant_coins[inputs[0]] with ?", "coin_data = %s" % q.var_sig(b, "coin_data"))
+    N_ID, N_CD = _role_vars(b)
+    r.check(al.get(q.var_sig(b, N_ID) or "") == "COINID" and "get($3.inputs, 0)" in (q.var_sig(b, N_ID) or ""), "coin-id", "the spent coin is inputs[0]", "coin_id = %s" % q.var_sig(b, N_ID))
+    r.check((q.var_sig(b, N_CD) or "").startswith("try(HashMap::get($2, "), "coin-lookup", "coin data comes from relevant_coins[inputs[0]] with ?", "coin_data = %s" % q.var_sig(b, N_CD))
 
     def gate(key, sites, forced, okmsg, badmsg):
         if not sites:
@@ -87,7 +104,7 @@ def r1_gate_chain(ctx):
     gate("melpow", pw, V(1), "failed MelPoW ⇒ no Ok", "with MelPoW failing Ok is reachable")
     # values only: `inputs.get(0).unwrap()`, `inputs.get(0).ok_or(..)?` and a copy of either are the same first input
     al2 = {"stdcode::deserialize($3.data)": "DATA"}
-    for nm, short in (("coin_id", "COINID"), ("coin_data", "COIN")):
+    for nm, short in ((N_ID, "COINID"), (N_CD, "COIN")):
         d = q.var_def_exprs(b, nm)
         if len(d) == 1:
             k2 = sig(q.strip_unwrap(d[0][1]))
